@@ -21,6 +21,7 @@ import (
 	"github.com/cbeuw/Cloak/internal/server/usermanager"
 	"github.com/cbeuw/Cloak/internal/simsync"
 	"github.com/cbeuw/Cloak/internal/verifmain/ckclient"
+	"github.com/cbeuw/Cloak/internal/verifmain/ckserver"
 	"github.com/cbeuw/Cloak/verifsim/simnet"
 )
 
@@ -43,6 +44,19 @@ type SrvWorld struct {
 	Redir    *simnet.Listener
 	Mgr      usermanager.UserManager
 	cleanups []func()
+	// RealMain: the server was started by cmd/ck-server's main() (which serves
+	// its listeners itself); Fronts are its listeners, Exit a log.Fatal message
+	RealMain bool
+	Fronts   []*simnet.Listener
+	Exit     string
+}
+
+// Serve starts the accept loop on the front listener unless ck-server's own
+// main() is already serving.
+func (w *SrvWorld) Serve() {
+	if !w.RealMain {
+		simsync.Go("h:serve", func() { server.Serve(w.Front, w.Sta) })
+	}
 }
 
 const (
@@ -65,6 +79,10 @@ type SrvParams struct {
 	NBypass   int
 	WithDB    bool
 	SkewMS    int64
+	// RealMain: start the server through cmd/ck-server's main() (no clock skew:
+	// it runs on the real world state); BindAddrs: its BindAddr setting
+	RealMain  bool
+	BindAddrs []string
 }
 
 var scratchSeq int
@@ -103,6 +121,61 @@ func NewSrvWorld(c *Ctx, p SrvParams) *SrvWorld {
 	if p.WithDB {
 		w.DBDir = scratchDir()
 		raw.DatabasePath = filepath.Join(w.DBDir, "userinfo.db")
+	}
+	if p.RealMain {
+		// the shipped main() of cmd/ck-server (importable copy made by the
+		// instrumenter): configuration file -> ParseConfig -> resolveBindAddr ->
+		// InitState -> one listener per bind address -> Serve
+		if len(p.BindAddrs) == 0 {
+			p.BindAddrs = []string{srvAddr}
+		}
+		raw.BindAddr = p.BindAddrs
+		dir := scratchDir()
+		w.cleanups = append(w.cleanups, func() { os.RemoveAll(dir) })
+		cfg := filepath.Join(dir, "ckserver.json")
+		b, _ := json.Marshal(raw)
+		os.WriteFile(cfg, b, 0o600)
+		listening := 0
+		simsync.HookListen = func(network, addr string) (net.Listener, error) {
+			l := c.Net.Listen(addr)
+			w.Fronts = append(w.Fronts, l)
+			listening++
+			return l, nil
+		}
+		simsync.HookServe = func(l net.Listener, st any) {
+			sta := st.(*server.State)
+			if w.Sta == nil {
+				sta.ProxyDialer = &simnet.Dialer{Net: c.Net, LocalIP: "10.0.0.2", Tag: "proxy"}
+				sta.RedirDialer = &simnet.Dialer{Net: c.Net, LocalIP: "10.0.0.2", Tag: "redir", TagFunc: simsync.CurrentTaskName}
+				w.Sta = sta
+				w.Mgr = sta.Panel.Manager
+			}
+			server.Serve(l, sta)
+		}
+		simsync.Go("h:ck-server", func() {
+			defer func() {
+				if r := recover(); r != nil {
+					fe, ok := r.(simsync.FatalExit)
+					if !ok {
+						panic(r)
+					}
+					w.Exit = fe.Msg
+				}
+			}()
+			os.Args = []string{"ck-server", "-c", cfg, "-verbosity", "panic"}
+			flag.CommandLine = flag.NewFlagSet("ck-server", flag.ContinueOnError)
+			ckserver.Main()
+		})
+		c.Drive(func() bool { return w.Exit != "" || (w.Sta != nil && listening == len(p.BindAddrs)) })
+		if w.Sta == nil {
+			panic(fmt.Sprintf("ck-server main() did not come up: %q", w.Exit))
+		}
+		w.RealMain = true
+		for name, e := range p.ProxyBook {
+			w.Upstream[name] = c.Net.ListenNet(e[0], e[1])
+		}
+		w.Redir = c.Net.Listen(redirAddr)
+		return w
 	}
 	world := common.WorldState{Rand: rngReader{rand.New(rand.NewPCG(c.Rng.Uint64(), 7))}, Now: func() time.Time { return time.Now().Add(w.Skew) }}
 	sta, err := server.InitState(raw, world)
@@ -154,22 +227,24 @@ func randBytes(r *rand.Rand, n int) []byte {
 
 // ClientParams describes a Cloak client as its configuration file would.
 type ClientParams struct {
-	UID        []byte `json:"uid"`
-	Method     string `json:"method"`      // proxy method
-	Encryption string `json:"encryption"`  // plain | aes-128-gcm | aes-256-gcm | chacha20-poly1305
-	Browser    string `json:"browser"`     // chrome | firefox | safari
-	Transport  string `json:"transport"`   // direct | CDN
-	ServerName string `json:"server_name"`
-	NumConn    int    `json:"num_conn"`
-	UDP        bool   `json:"udp,omitempty"`
-	SkewMS     int64  `json:"skew_ms,omitempty"` // client clock against the bubble clock
-	SessionID  uint32 `json:"session_id"`
+	UID           []byte `json:"uid"`
+	Method        string `json:"method"`     // proxy method
+	Encryption    string `json:"encryption"` // plain | aes-128-gcm | aes-256-gcm | chacha20-poly1305
+	Browser       string `json:"browser"`    // chrome | firefox | safari
+	Transport     string `json:"transport"`  // direct | CDN
+	ServerName    string `json:"server_name"`
+	NumConn       int    `json:"num_conn"`
+	UDP           bool   `json:"udp,omitempty"`
+	SkewMS        int64  `json:"skew_ms,omitempty"` // client clock against the bubble clock
+	SessionID     uint32 `json:"session_id"`
 	CDNOriginHost string `json:"cdn_origin_host,omitempty"`
 	CDNWsUrlPath  string `json:"cdn_ws_url_path,omitempty"`
 	StreamTimeout int    `json:"stream_timeout,omitempty"` // seconds; 0 = default (300)
 	// AbsTimeS != 0: the client's clock reads this many seconds since the epoch
 	// (timestamps centuries away from the server's clock), whatever SkewMS says
 	AbsTimeS int64 `json:"abs_time_s,omitempty"`
+	// RemotePort: the server port to dial ("" = 443)
+	RemotePort string `json:"remote_port,omitempty"`
 }
 
 // ClientConfig runs the real configuration path (RawConfig -> ProcessRawConfig).
@@ -179,6 +254,9 @@ func (w *SrvWorld) rawClientConfig(p ClientParams) client.RawConfig {
 		UDP: p.UDP, BrowserSig: p.Browser, Transport: p.Transport, StreamTimeout: p.StreamTimeout}
 	if raw.ServerName == "" {
 		raw.ServerName = "www.bing.com"
+	}
+	if p.RemotePort != "" {
+		raw.RemotePort = p.RemotePort
 	}
 	if strings.EqualFold(p.Transport, "cdn") {
 		raw.RemoteHost = "10.0.0.8" // the CDN edge
@@ -289,9 +367,11 @@ func (c *captureConn) Write(b []byte) (int, error) {
 	c.w = append(c.w, append([]byte(nil), b...))
 	return len(b), nil
 }
-func (c *captureConn) Close() error                       { return nil }
-func (c *captureConn) LocalAddr() net.Addr                { return &net.TCPAddr{IP: net.IPv4(10, 0, 0, 9), Port: 1} }
-func (c *captureConn) RemoteAddr() net.Addr               { return &net.TCPAddr{IP: net.IPv4(10, 0, 0, 2), Port: 443} }
+func (c *captureConn) Close() error        { return nil }
+func (c *captureConn) LocalAddr() net.Addr { return &net.TCPAddr{IP: net.IPv4(10, 0, 0, 9), Port: 1} }
+func (c *captureConn) RemoteAddr() net.Addr {
+	return &net.TCPAddr{IP: net.IPv4(10, 0, 0, 2), Port: 443}
+}
 func (c *captureConn) SetDeadline(t time.Time) error      { return nil }
 func (c *captureConn) SetReadDeadline(t time.Time) error  { return nil }
 func (c *captureConn) SetWriteDeadline(t time.Time) error { return nil }
